@@ -101,7 +101,7 @@ func cmdStruct(args []string) {
 	b := hx.NewBatch(*work)
 	b.WriteGoMod()
 	var src strings.Builder
-	src.WriteString("package p\n\nimport \"" + b.Mod + "/q\"\n\nvar _ q.TQ\n\nfunc Fn(x int) int { return x }\n\ntype DS struct {\n\tA int\n\tB int\n}\ntype DT struct {\n\tA int\n\tB int\n}\ntype FPS struct{ V int }\ntype UN struct{ X int }\ntype UNI struct {\n\tX     int\n\tExtra interface{}\n}\ntype USI struct{ N UNI }\ntype UTI struct{ N UNI }\ntype US struct {\n\tA int\n\tN UN\n\tP *int\n\tL []int\n}\ntype UT struct {\n\tA  int\n\tN  UN\n\tP  *int\n\tL  []int\n\tLS []string\n}\n\nfunc ToS(v []int) []string {\n\tif v == nil {\n\t\treturn []string{\"nil\"}\n\t}\n\treturn []string{\"7\"}\n}\n\ntype Money struct{ V int }\ntype Price struct{ V int }\ntype Cost struct{ V int }\ntype DS2 struct {\n\tA int\n\tM Money\n\tN Money\n}\ntype DT2 struct {\n\tA int\n\tM Price\n\tN Cost\n}\n\nfunc NewT2() *DT2 { return &DT2{A: 100} }\n\nfunc NewDL() []*struct{ A int } { return nil }\n")
+	src.WriteString("package p\n\nimport \"" + b.Mod + "/q\"\n\nvar _ q.TQ\n\nfunc Fn(x int) int { return x }\n\ntype DS struct {\n\tA int\n\tB int\n}\ntype DT struct {\n\tA int\n\tB int\n}\ntype FPS struct{ V int }\ntype UN struct{ X int }\ntype UNI struct {\n\tX     int\n\tExtra interface{}\n}\ntype USI struct{ N UNI }\ntype UTI struct{ N UNI }\ntype US struct {\n\tA int\n\tN UN\n\tP *int\n\tL []int\n}\ntype UT struct {\n\tA  int\n\tN  UN\n\tP  *int\n\tL  []int\n\tLS []string\n}\n\nfunc ToS(v []int) []string {\n\tif v == nil {\n\t\treturn []string{\"nil\"}\n\t}\n\treturn []string{\"7\"}\n}\n\ntype Money struct{ V int }\ntype Price struct{ V int }\ntype Cost struct{ V int }\ntype DS2 struct {\n\tA int\n\tM Money\n\tN Money\n}\ntype DT2 struct {\n\tA int\n\tM Price\n\tN Cost\n}\n\nfunc NewT2() *DT2 { return &DT2{A: 100} }\n\nfunc NewDL() []*struct{ A int } { return nil }\n\ntype DR struct {\n\tV    int\n\tKids []DR\n}\ntype DRO struct {\n\tV    int\n\tKeep int\n\tKids []DRO\n}\n\nfunc NewDRO() *DRO { return &DRO{Keep: 100} }\n\ntype DV struct{ V int }\ntype DVO struct {\n\tV    int\n\tKeep int\n}\n\nfunc NewDVO() *DVO { return &DVO{Keep: 100} }\n")
 	type drvCall struct {
 		Args []any `json:"args"`
 		Dump []int `json:"dump"`
@@ -294,6 +294,14 @@ func cmdStruct(args []string) {
 		case "update-iface":
 			// an update method whose zero-value guard compares a struct that holds an interface (C18: no reflect)
 			fmt.Fprintf(&src, "\n// goverter:converter\n// goverter:skipCopySameType\n%stype C%d interface {\n\t// goverter:update target\n\t// goverter:update:ignoreZeroValueField:struct\n\tUpdate(source USI, target *UTI)\n}\n", head(i), i)
+		case "default-update-rec":
+			// default:update on a recursive type: the seen rule creates a helper for DR -> DRO and the method is rebuilt
+			fmt.Fprintf(&src, "\n// goverter:converter\n// goverter:ignoreMissing\n%stype C%d interface {\n\t// goverter:default NewDRO\n\t// goverter:default:update\n\tConv(source *DR) *DRO\n}\n", head(i), i)
+			drvLines[i]["ins"] = []any{ptrv(stv(lit(5), map[string]any{"k": "nil"}))}
+		case "default-update-shared":
+			// default:update next to a list method that makes goverter generate a helper for DV -> DVO
+			fmt.Fprintf(&src, "\n// goverter:converter\n// goverter:ignoreMissing\n%stype C%d interface {\n\tAll(source []DV) []DVO\n\t// goverter:default NewDVO\n\t// goverter:default:update\n\tConv(source *DV) *DVO\n}\n", head(i), i)
+			drvLines[i]["ins"] = []any{ptrv(stv(lit(5)))}
 		case "default-list":
 			// default on a list method: the constructor is not taken by the list rule; the elements are struct -> *struct
 			fmt.Fprintf(&src, "\n// goverter:converter\n%stype C%d interface {\n\t// goverter:default NewDL\n\tConv(source []struct{ A int }) []*struct{ A int }\n}\n", head(i), i)
@@ -451,6 +459,20 @@ func cmdStruct(args []string) {
 			}
 			obs.Write(base)
 		case "update-iface":
+			obs.Write(base)
+		case "default-update-rec", "default-update-shared":
+			base["prog"] = s.Prog
+			base["panic"] = false
+			base["res"] = map[string]any{"nil": true, "A": 0, "B": 0}
+			for _, r := range byID[i] {
+				nExec++
+				if r["panic"] == true {
+					base["panic"] = true
+				} else if out := r["out"].(map[string]any); out["k"] == "p" {
+					f := out["e"].(map[string]any)["fs"].([]any)
+					base["res"] = map[string]any{"nil": false, "A": litOf(f[0]), "B": litOf(f[1])}
+				}
+			}
 			obs.Write(base)
 		case "default-list":
 			base["prog"] = s.Prog
